@@ -7,8 +7,10 @@ import (
 	"errors"
 	"fmt"
 	"io"
+	"strconv"
 	"strings"
 	"sync"
+	"time"
 
 	"github.com/projecteru2/core/engine"
 	enginefactory "github.com/projecteru2/core/engine/factory"
@@ -24,12 +26,13 @@ import (
 const scriptPrefix = "vfk2://"
 
 type ctScript struct {
-	Lines      int   `json:"lines"`
-	LogsFail   bool  `json:"logs_fail,omitempty"`
-	AttachFail bool  `json:"attach_fail,omitempty"`
-	WaitFail   bool  `json:"wait_fail,omitempty"`
-	Code       int64 `json:"code"`
-	StartFail  bool  `json:"start_fail,omitempty"`
+	Lines         int   `json:"lines"`
+	LogsFail      bool  `json:"logs_fail,omitempty"`
+	AttachFail    bool  `json:"attach_fail,omitempty"`
+	WaitFail      bool  `json:"wait_fail,omitempty"`
+	Code          int64 `json:"code"`
+	StartFail     bool  `json:"start_fail,omitempty"`
+	CreateDelayMs int   `json:"create_delay_ms,omitempty"` // VirtualizationCreate blocks this long (ignoring its context)
 }
 
 type scriptHub struct {
@@ -88,12 +91,32 @@ func (sh *scriptHub) addNode(cl *ckit.Cluster, s ckit.NodeSpec) {
 	addNodeOpts(cl, o)
 }
 
+func scriptSeq(env []string) int {
+	for _, e := range env {
+		if strings.HasPrefix(e, "ERU_WORKLOAD_SEQ=") {
+			n, err := strconv.Atoi(strings.TrimPrefix(e, "ERU_WORKLOAD_SEQ="))
+			if err == nil {
+				return n
+			}
+		}
+	}
+	return -1
+}
+
 type scriptEngine struct {
 	*ckit.FakeEngine
 	sh *scriptHub
 }
 
 func (e *scriptEngine) VirtualizationCreate(ctx context.Context, opts *enginetypes.VirtualizationCreateOptions) (*enginetypes.VirtualizationCreated, error) {
+	if seq := scriptSeq(opts.Env); seq >= 0 {
+		e.sh.mu.Lock()
+		d := e.sh.scripts[seq].CreateDelayMs
+		e.sh.mu.Unlock()
+		if d > 0 {
+			time.Sleep(time.Duration(d) * time.Millisecond)
+		}
+	}
 	r, err := e.FakeEngine.VirtualizationCreate(ctx, opts)
 	if err == nil && e.sh.onCreate != nil {
 		e.sh.onCreate(r.ID)
